@@ -226,4 +226,88 @@ def aorsmul (ra : Nat → Nat → Nat) (always : Bool) (s : St) (w x y : Nat) (s
 def mpz_addmul (s : St) (w u v : Nat) : St := aorsmul (fun a b => max a b + 1) true s w u v false   -- aorsmul.c:149
 def mpz_submul (s : St) (w u v : Nat) : St := aorsmul (fun a b => max a b + 1) true s w u v true    -- aorsmul.c:155
 
+/-! ### mpz_mul — mpz/mul.c (HAVE_NATIVE_mpn_mul_2 undefined: lines 69-79 are live) -/
+
+/-- mpn_mul (rp, up, un, vp, vn) / mpn_sqr (rp, up, un) with `Src` operands: reads up[0,un), vp[0,vn); writes rp[0, un+vn);
+    returns the top limb.  (The operands never overlap the destination: mul.c:118-152 sees to that.) -/
+def mpn_mul_S (s : St) (rp : Ptr) (up : Src) (un : Nat) (vp : Src) (vn : Nat) : St × Nat :=
+  let t := Mpz.mpn_mul (s.rdS up un) (s.rdS vp vn)
+  ((s.chk (s.rdOkS up un && s.rdOkS vp vn)).wr rp t, Mpz.topLimb t)
+
+/-- mul.c:128-130: `w->_mp_alloc = wsize; wp = (*__gmp_allocate_func) (wsize limbs); w->_mp_d = wp;` — a NEW block of exactly
+    `n` limbs, contents NOT copied; pointers into the old block dangle unless the old block is kept (`free_me`) -/
+def freshBlock (s : St) (w n : Nat) : St :=
+  let o := s.h w
+  { s with h := upd s.h w ⟨o.size, o.gen + 1, Buf.new n⟩ }
+
+/-- `p = TMP_ALLOC (n limbs); MPN_COPY (p, src, n)` (mul.c:138-143, 148-150) -/
+def tmp_copy (s : St) (src : Ptr) (n : Nat) : Buf × St :=
+  let b := (Buf.new n).write 0 (s.rd src n)
+  (b.1, s.chk (s.rdOk src n && b.2))
+
+/-- mul.c:154-163 -/
+def mulTail (s : St) (w : Nat) (up vp : Src) (usize vsize : Nat) (same neg : Bool) : St :=
+  let wp := s.PTR w                                                           -- the `wp` of mul.c:129 / 114
+  let wsize := usize + vsize                                                  -- :160
+  if same && usize == vsize then                                              -- :154 (up == vp) && (usize == vsize)
+    let s := (mpn_mul_S s wp up usize up usize).1                             -- :156 mpn_sqr (wp, up, usize)
+    let (cy_limb, s) := s.load wp (2 * usize - 1)                             -- :157
+    s.setSize w (sgn neg (wsize - (if cy_limb == 0 then 1 else 0)))           -- :161, 163
+  else
+    let (s, cy_limb) := mpn_mul_S s wp up usize vp vsize                      -- :159
+    s.setSize w (sgn neg (wsize - (if cy_limb == 0 then 1 else 0)))           -- :161, 163
+
+/-- mul.c:110-166 after the swap (usize ≥ vsize).  `retain` = the old block of w is kept until the end when it is also an
+    operand (`free_me`, mul.c:120-124) — `false` is the WRONG variant that frees it at once. -/
+def mulGeneric (retain : Bool) (s : St) (w u v : Nat) (usize vsize : Nat) (neg : Bool) : St :=
+  let wsize := usize + vsize
+  let up := s.PTR u                                                           -- :112
+  let vp := s.PTR v                                                           -- :113
+  if s.ALLOC w < wsize then                                                   -- :118
+    if (w == u || w == v) && retain then                                      -- :120 wp == up || wp == vp
+      let old := (s.h w).buf                                                  -- :122-123 free_me = wp: the block stays alive
+      let s := freshBlock s w wsize                                           -- :128-130
+      let up := if w == u then Src.tmp old 0 else Src.ptr up
+      let vp := if w == v then Src.tmp old 0 else Src.ptr vp
+      mulTail s w up vp usize vsize (u == v) neg                              -- :154-165 (the old block is freed at :165)
+    else
+      let s := freshBlock s w wsize                                           -- :126 free, :128-130
+      mulTail s w (Src.ptr up) (Src.ptr vp) usize vsize (u == v) neg
+  else if w == u then                                                         -- :135 wp == up
+    let (tb, s) := tmp_copy s up usize                                        -- :138, 143
+    let vp := if w == v then Src.tmp tb 0 else Src.ptr vp                     -- :140-141
+    mulTail s w (Src.tmp tb 0) vp usize vsize (u == v) neg
+  else if w == v then                                                         -- :145
+    let (tb, s) := tmp_copy s vp vsize                                        -- :148, 150
+    mulTail s w (Src.ptr up) (Src.tmp tb 0) usize vsize (u == v) neg
+  else mulTail s w (Src.ptr up) (Src.ptr vp) usize vsize (u == v) neg
+
+/-- mpz_mul (w, u, v), mul.c:27-166; `thr` = MUL_KARATSUBA_THRESHOLD; `plus` = 1 in the C (`MPZ_REALLOC (w, usize+1)`) -/
+def mul (thr : Nat) (retain : Bool) (plus : Nat) (s : St) (w u v : Nat) : St :=
+  let usize := (s.SIZ u).natAbs                                               -- mul.c:42
+  let vsize := (s.SIZ v).natAbs                                               -- :43
+  let neg := Mpz.diffSign (s.SIZ u) (s.SIZ v)                                 -- :41 sign_product < 0
+  if usize == 0 || vsize == 0 then s.setSize w 0                              -- :45-49
+  else if vsize == 1 then                                                     -- :69
+    let s := MPZ_REALLOC s w (usize + plus)                                   -- :71
+    let wp := s.PTR w                                                         -- :72
+    let (v0, s) := s.load (s.PTR v) 0                                         -- :73 PTR(v)[0]
+    let (s, cy_limb) := mpn_mul_1 s wp (s.PTR u) usize v0                     -- :73
+    let s := s.store wp usize cy_limb                                         -- :74
+    s.setSize w (sgn neg (usize + (if cy_limb != 0 then 1 else 0)))           -- :75-76
+  else
+    let wsize := usize + vsize                                                -- :81
+    if wsize ≤ thr && w != u && w != v then                                   -- :83
+      let s := MPZ_REALLOC s w wsize                                          -- :85
+      let wp := s.PTR w                                                       -- :86
+      let s :=
+        if usize ≥ vsize then (mpn_mul s wp (s.PTR u) usize (s.PTR v) vsize).1   -- :87-96 (sqr_basecase = the same rows)
+        else (mpn_mul s wp (s.PTR v) vsize (s.PTR u) usize).1                 -- :98
+      let (top, s) := s.load wp (wsize - 1)                                   -- :100
+      s.setSize w (sgn neg (wsize - (if top == 0 then 1 else 0)))             -- :100-101
+    else if usize < vsize then mulGeneric retain s w v u vsize usize neg      -- :105-109
+    else mulGeneric retain s w u v usize vsize neg
+
+def mpz_mul (s : St) (w u v : Nat) : St := mul 17 true 1 s w u v
+
 end Mpir.AllocSafe
